@@ -1742,6 +1742,7 @@ class Model:
     # Think of something like NADPH / (NADP + NADPH) as a proxy for energy state
     ##########################################################################
 
+    @_invalidate_cache
     def add_readout(
         self,
         name: str,
@@ -1791,6 +1792,7 @@ class Model:
             return copy.deepcopy(self._readouts)
         return self._readouts
 
+    @_invalidate_cache
     def remove_readout(self, name: str) -> Self:
         """Remove a readout by its name.
 
@@ -1861,6 +1863,7 @@ class Model:
         self._surrogates[name] = surrogate
         return self
 
+    @_invalidate_cache
     def update_surrogate(
         self,
         name: str,
@@ -1915,6 +1918,7 @@ class Model:
         self._surrogates[name] = surrogate
         return self
 
+    @_invalidate_cache
     def remove_surrogate(self, name: str) -> Self:
         """Remove a surrogate model from the model.
 
@@ -1977,17 +1981,20 @@ class Model:
     # Datasets
     ##########################################################################
 
+    @_invalidate_cache
     def add_data(self, name: str, data: pd.Series | pd.DataFrame) -> Self:
         """Add named data set to model."""
         self._insert_id(name=name, ctx="data")
         self._data[name] = data
         return self
 
+    @_invalidate_cache
     def update_data(self, name: str, data: pd.Series | pd.DataFrame) -> Self:
         """Update named data set."""
         self._data[name] = data
         return self
 
+    @_invalidate_cache
     def remove_data(self, name: str) -> Self:
         """Remove data set from model."""
         if name not in self._data:
